@@ -266,6 +266,12 @@ func (r *runner) decodedDump() (coq string, lockb []byte, lockOK bool, maxRev ui
 func (r *runner) serve(p *proc, o hop) (class string, hdr uint64) {
 	ctx, cancel := context.WithTimeout(context.Background(), 5*time.Second)
 	defer cancel()
+	defer func() {
+		if x := recover(); x != nil { // a Go panic in a request handler is an outcome, not a driver crash
+			class, hdr = "HErr", 0
+			r.fail = fmt.Sprintf("panic in %s %s (expected revision %d) on process %d: %v", o.Kind, o.Key, o.Prev, p.n, x)
+		}
+	}()
 	switch o.Kind {
 	case "create":
 		resp, err := p.b.Create(ctx, &proto.CreateRequest{Key: []byte(o.Key), Value: []byte(o.Val)})
@@ -567,7 +573,7 @@ func main() {
 	args := lib.ParseArgs()
 	rnd := lib.NewRand(args.Seed)
 	engines := []string{lib.EngBadger, lib.EngTiKV, lib.EngMem}
-	nHist, hLen := 3, 9
+	nHist, hLen := 6, 10
 	if args.Tier == "thorough" {
 		nHist, hLen = 24, 16
 	} else if args.Tier == "search" {
